@@ -57,8 +57,14 @@ def traversal(rep, prog):
     br = term.f.get('branches')
     comps = ev.getattr(A('circuit'), 'components', f.mod, 0)
     if not (isinstance(br, Comp) and len(br.gens) == 1 and term_equal(br.gens[0][0], comps)):
-        rep.ob('R07.traversal', 'transform_circuit:one-pass', None if not isinstance(br, Comp) else False,
-               f'branches is not a single pass over circuit.components: {br!r:.160}', site)
+        # a loop that can leave early (break / return inside the loop) drops every later component
+        early = [n for lp in ast.walk(f.node) if isinstance(lp, (ast.For, ast.While)) for n in ast.walk(lp) if isinstance(n, (ast.Break, ast.Return))]
+        if early:
+            rep.ob('R07.traversal', 'transform_circuit:one-pass', False,
+                   f'the traversal of circuit.components can stop early (`{type(early[0]).__name__.lower()}` at line {early[0].lineno}): components listed after that point are silently omitted', site)
+        else:
+            rep.ob('R07.traversal', 'transform_circuit:one-pass', None if not isinstance(br, Comp) else False,
+                   f'branches is not a single pass over circuit.components: {br!r:.160}', site)
     else:
         rep.ob('R07.traversal', 'transform_circuit:one-pass', True, 'branches = [translate(c) for c in circuit.components ...] (one generator)', site)
         elem = ev.elem_of(comps, 0)
